@@ -387,10 +387,17 @@ def adaptive_program(rng, sim="purefock", d=None, max_meas=2, allow_active=True,
                 r = rng.random()
                 if r < 0.45:
                     g.update(_cond(rng, n_out, float_out))
-                if r > 0.3 and name in ("Phaseshifter", "Kerr", "CrossKerr", "Squeezing", "Displacement", "QuadraticPhase"):
+                if r > 0.3 and name in ("Phaseshifter", "Kerr", "CrossKerr", "Squeezing", "Displacement", "QuadraticPhase", "Beamsplitter", "MachZehnder"):
                     key = {"Phaseshifter": "phi", "Kerr": "xi", "CrossKerr": "xi", "Squeezing": "phi",
-                           "Displacement": "phi", "QuadraticPhase": "s"}[name]
+                           "Displacement": "phi", "QuadraticPhase": "s", "Beamsplitter": "phi", "MachZehnder": "ext"}[name]
                     g["p"][key] = _param_expr(rng, n_out, float_out)
+                    # sometimes a second outcome-dependent parameter on the same instruction
+                    second = {"Squeezing": "r", "Displacement": "r", "Beamsplitter": "theta", "MachZehnder": "int_"}.get(name)
+                    if second is not None and rng.random() < 0.4:
+                        e2 = _param_expr(rng, n_out, float_out)
+                        if isinstance(e2, str) and name in ("Squeezing", "Displacement"):
+                            e2 = "0.1 * ((%s) %% 2)" % e2 if not float_out else "0.05"
+                        g["p"][second] = e2
             ins.append(g)
         if stage == n_meas or len(active) == 0:
             break
